@@ -1,5 +1,517 @@
 package main
 
+import (
+	"bytes"
+	"context"
+	"encoding/json"
+	"fmt"
+	"go/types"
+	"os"
+	"os/exec"
+	"path/filepath"
+	"sort"
+	"strings"
+	"time"
+)
+
+// parseModel parses "((name value) (name value) ...)" as printed by get-value.
+func parseModel(s string) map[string]string {
+	out := map[string]string{}
+	s = strings.TrimSpace(s)
+	for _, pair := range splitSexpArgs("(x " + strings.TrimSuffix(strings.TrimPrefix(s, "("), ")") + ")")[1:] {
+		kv := splitSexpArgs(pair)
+		if len(kv) == 2 {
+			out[kv[0]] = kv[1]
+		}
+	}
+	return out
+}
+
+type replayGen struct {
+	pkg     *types.Package
+	imports map[string]string // path -> alias
+	sorts   *Sorts
+}
+
+func (g *replayGen) typeStr(t types.Type) string {
+	return types.TypeString(t, func(p *types.Package) string {
+		if p == g.pkg {
+			return ""
+		}
+		if a, ok := g.imports[p.Path()]; ok {
+			return a
+		}
+		a := fmt.Sprintf("vp%d_%s", len(g.imports), p.Name())
+		g.imports[p.Path()] = a
+		return a
+	})
+}
+
+func smtNum(v string) (string, bool) {
+	v = strings.TrimSpace(v)
+	if strings.HasPrefix(v, "(- ") && strings.HasSuffix(v, ")") {
+		inner, ok := smtNum(v[3 : len(v)-1])
+		return "-" + inner, ok
+	}
+	if v == "" {
+		return "", false
+	}
+	for _, c := range v {
+		if c < '0' || c > '9' {
+			return "", false
+		}
+	}
+	return v, true
+}
+
+// goLit converts an SMT model value into a Go expression of type t.
+func (g *replayGen) goLit(v string, t types.Type) (string, error) {
+	t = types.Unalias(t)
+	switch u := t.Underlying().(type) {
+	case *types.Basic:
+		switch {
+		case u.Info()&types.IsBoolean != 0:
+			if v == "true" || v == "false" {
+				return g.typeStr(t) + "(" + v + ")", nil
+			}
+		case u.Info()&types.IsInteger != 0:
+			if n, ok := smtNum(v); ok {
+				return g.typeStr(t) + "(" + n + ")", nil
+			}
+		}
+		return "", fmt.Errorf("no Go literal for %s value %q", t, truncateStr(v, 40))
+	case *types.Struct:
+		ss := g.sorts.StructOf(t)
+		if ss == nil {
+			return "", fmt.Errorf("unknown struct sort for %s", t)
+		}
+		args := splitSexpArgs(v)
+		if len(ss.Fields) == 0 {
+			return g.typeStr(t) + "{}", nil
+		}
+		if len(args) != len(ss.Fields)+1 || args[0] != ss.Ctor {
+			return "", fmt.Errorf("unexpected struct value %q", truncateStr(v, 60))
+		}
+		var parts []string
+		for i, f := range ss.Fields {
+			if f.Name == "_" {
+				continue
+			}
+			if !u.Field(i).Exported() && u.Field(i).Pkg() != g.pkg {
+				// cannot set a foreign unexported field: only acceptable if it is the zero value
+				continue
+			}
+			fl, err := g.goLit(args[i+1], f.Type)
+			if err != nil {
+				// leave the field at its zero value when it cannot be expressed and is opaque
+				if isOpaqueForReplay(f.Type) {
+					continue
+				}
+				return "", err
+			}
+			parts = append(parts, f.Name+": "+fl)
+		}
+		return g.typeStr(t) + "{" + strings.Join(parts, ", ") + "}", nil
+	case *types.Pointer:
+		args := splitSexpArgs(v)
+		if len(args) == 3 {
+			if args[1] == "true" {
+				return "(" + g.typeStr(t) + ")(nil)", nil
+			}
+			inner, err := g.goLit(args[2], u.Elem())
+			if err != nil {
+				return "", err
+			}
+			if _, isStruct := u.Elem().Underlying().(*types.Struct); isStruct {
+				return "&" + inner, nil
+			}
+			return fmt.Sprintf("func() %s { x := %s; return &x }()", g.typeStr(t), inner), nil
+		}
+	case *types.Array:
+		elems, def, err := arrayModel(v)
+		if err == nil && u.Len() <= 4096 {
+			var parts []string
+			for i := int64(0); i < u.Len(); i++ {
+				ev, ok := elems[fmt.Sprint(i)]
+				if !ok {
+					ev = def
+				}
+				el, err := g.goLit(ev, u.Elem())
+				if err != nil {
+					return "", err
+				}
+				parts = append(parts, el)
+			}
+			return g.typeStr(t) + "{" + strings.Join(parts, ", ") + "}", nil
+		}
+	case *types.Slice:
+		args := splitSexpArgs(v)
+		if len(args) == 5 {
+			off, ok1 := smtNum(args[2])
+			ln, ok2 := smtNum(args[3])
+			if ok1 && ok2 {
+				var offN, lenN int
+				fmt.Sscan(off, &offN)
+				fmt.Sscan(ln, &lenN)
+				if lenN >= 0 && lenN <= 4096 {
+					elems, def, err := arrayModel(args[1])
+					if err == nil {
+						var parts []string
+						for i := 0; i < lenN; i++ {
+							ev, ok := elems[fmt.Sprint(offN+i)]
+							if !ok {
+								ev = def
+							}
+							el, err := g.goLit(ev, u.Elem())
+							if err != nil {
+								return "", err
+							}
+							parts = append(parts, el)
+						}
+						return g.typeStr(t) + "{" + strings.Join(parts, ", ") + "}", nil
+					}
+				}
+			}
+		}
+	}
+	return "", fmt.Errorf("no Go literal for %s value %q", t, truncateStr(v, 60))
+}
+
+func isOpaqueForReplay(t types.Type) bool {
+	switch t.Underlying().(type) {
+	case *types.Interface, *types.Signature, *types.Chan, *types.Map:
+		return true
+	}
+	return false
+}
+
+// arrayModel decodes ((as const ...) d) / (store a i v) array values.
+func arrayModel(v string) (map[string]string, string, error) {
+	elems := map[string]string{}
+	for {
+		args := splitSexpArgs(v)
+		if len(args) == 4 && args[0] == "store" {
+			idx, ok := smtNum(args[2])
+			if !ok {
+				return nil, "", fmt.Errorf("non-numeric index")
+			}
+			if _, seen := elems[idx]; !seen {
+				elems[idx] = args[3]
+			}
+			v = args[1]
+			continue
+		}
+		if len(args) == 2 && strings.HasPrefix(args[0], "(as const") {
+			return elems, args[1], nil
+		}
+		return nil, "", fmt.Errorf("unsupported array model %q", truncateStr(v, 60))
+	}
+}
+
+// smtPrinter returns a Go expression (of type string) that renders expr (of type t) as an SMT term.
+func (g *replayGen) smtPrinter(expr string, t types.Type, depth int) (string, bool) {
+	t = types.Unalias(t)
+	if depth > 8 {
+		return "", false
+	}
+	switch u := t.Underlying().(type) {
+	case *types.Basic:
+		switch {
+		case u.Info()&types.IsBoolean != 0:
+			return fmt.Sprintf("fmt.Sprint(bool(%s))", expr), true
+		case u.Info()&types.IsUnsigned != 0:
+			return fmt.Sprintf("fmt.Sprint(uint64(%s))", expr), true
+		case u.Info()&types.IsInteger != 0:
+			return fmt.Sprintf("vpSigned(int64(%s))", expr), true
+		}
+	case *types.Struct:
+		ss := g.sorts.StructOf(t)
+		if ss == nil {
+			return "", false
+		}
+		if len(ss.Fields) == 0 {
+			return fmt.Sprintf("%q", ss.Ctor), true
+		}
+		parts := []string{fmt.Sprintf("%q", "("+ss.Ctor)}
+		for i, f := range ss.Fields {
+			if !u.Field(i).Exported() && u.Field(i).Pkg() != g.pkg {
+				return "", false
+			}
+			p, ok := g.smtPrinter("("+expr+")."+f.Name, f.Type, depth+1)
+			if !ok {
+				return "", false
+			}
+			parts = append(parts, `" "`, p)
+		}
+		parts = append(parts, `")"`)
+		return strings.Join(parts, " + "), true
+	case *types.Interface:
+		if g.sorts.SortOf(t) == "Err" {
+			return fmt.Sprintf("vpErr(%s)", expr), true
+		}
+	}
+	return "", false
+}
+
 func replayImpl(w *World, root string, rep *OblReport, workDir string) (string, string) {
-	return "REPLAY-UNAVAILABLE", "replay not implemented for this input shape"
+	o := rep.obl
+	c := o.Ctx
+	if c == nil || c.fnSrc == nil {
+		return "REPLAY-UNAVAILABLE", "no function attached to this obligation (lemma)"
+	}
+	if o.Kind == "loop" || o.Kind == "assert" {
+		return "REPLAY-UNAVAILABLE", "obligation concerns an intermediate state (loop invariant / in-body assertion); the model was not replayed"
+	}
+	model := parseModel(rep.Model)
+	src := c.fnSrc
+	g := &replayGen{pkg: src.Pkg.Types, imports: map[string]string{}, sorts: c.sorts}
+	sig := src.Obj.Type().(*types.Signature)
+	var inLits []string
+	inSMT := map[string]string{}
+	for _, in := range c.inputs {
+		mv, ok := model[in.Term]
+		if !ok {
+			return "REPLAY-UNAVAILABLE", "model lacks input " + in.Name
+		}
+		inSMT[in.Name] = mv
+		lit, err := g.goLit(mv, in.Type)
+		if err != nil {
+			return "REPLAY-UNAVAILABLE", "input " + in.Name + ": " + err.Error()
+		}
+		inLits = append(inLits, lit)
+	}
+	// build the call
+	var b strings.Builder
+	var body strings.Builder
+	idx := 0
+	recvName := ""
+	if r := sig.Recv(); r != nil {
+		recvName = "vpRecv"
+		if r.Name() == "" || r.Name() == "_" {
+			// receiver not bound as input: use zero value
+			fmt.Fprintf(&body, "\tvar vpRecv %s\n", g.typeStr(c.instType(r.Type())))
+		} else {
+			fmt.Fprintf(&body, "\tvpRecv := %s\n", inLits[idx])
+			idx++
+		}
+	}
+	var argNames []string
+	var ptrParams []*types.Var
+	if r := sig.Recv(); r != nil {
+		if _, isPtr := r.Type().Underlying().(*types.Pointer); isPtr && r.Name() != "" && r.Name() != "_" {
+			ptrParams = append(ptrParams, r)
+		}
+	}
+	for i := 0; i < sig.Params().Len(); i++ {
+		p := sig.Params().At(i)
+		an := fmt.Sprintf("vpArg%d", i)
+		if p.Name() == "" || p.Name() == "_" {
+			fmt.Fprintf(&body, "\tvar %s %s\n", an, g.typeStr(c.instType(p.Type())))
+		} else {
+			fmt.Fprintf(&body, "\t%s := %s\n", an, inLits[idx])
+			idx++
+			if _, isPtr := p.Type().Underlying().(*types.Pointer); isPtr {
+				ptrParams = append(ptrParams, p)
+			}
+		}
+		if sig.Variadic() && i == sig.Params().Len()-1 {
+			an += "..."
+		}
+		argNames = append(argNames, an)
+	}
+	callee := src.Obj.Name()
+	if tps := sig.TypeParams(); tps != nil && tps.Len() > 0 {
+		var tas []string
+		for i := 0; i < tps.Len(); i++ {
+			tas = append(tas, g.typeStr(c.instType(tps.At(i))))
+		}
+		callee += "[" + strings.Join(tas, ", ") + "]"
+	}
+	if recvName != "" {
+		callee = recvName + "." + callee
+	}
+	var resNames []string
+	for i := 0; i < sig.Results().Len(); i++ {
+		resNames = append(resNames, fmt.Sprintf("vpRes%d", i))
+	}
+	fmt.Fprintf(&body, "\tfmt.Println(\"VERIF-REPLAY-CALL\")\n")
+	if len(resNames) > 0 {
+		fmt.Fprintf(&body, "\t%s := %s(%s)\n", strings.Join(resNames, ", "), callee, strings.Join(argNames, ", "))
+	} else {
+		fmt.Fprintf(&body, "\t%s(%s)\n", callee, strings.Join(argNames, ", "))
+	}
+	printable := true
+	for i := 0; i < sig.Results().Len(); i++ {
+		rt := c.instType(sig.Results().At(i).Type())
+		p, ok := g.smtPrinter(resNames[i], rt, 0)
+		if !ok {
+			fmt.Fprintf(&body, "\t_ = %s\n\tfmt.Println(\"VERIF-REPLAY-OUT r%d ?\")\n", resNames[i], i)
+			printable = false
+			continue
+		}
+		fmt.Fprintf(&body, "\tfmt.Println(\"VERIF-REPLAY-OUT r%d \" + %s)\n", i, p)
+	}
+	for _, pp := range ptrParams {
+		nm := "vpRecv"
+		if pp != sig.Recv() {
+			for i := 0; i < sig.Params().Len(); i++ {
+				if sig.Params().At(i) == pp {
+					nm = fmt.Sprintf("vpArg%d", i)
+				}
+			}
+		}
+		pt := c.instType(pp.Type()).Underlying().(*types.Pointer)
+		p, ok := g.smtPrinter("*"+nm, pt.Elem(), 0)
+		if !ok {
+			fmt.Fprintf(&body, "\tfmt.Println(\"VERIF-REPLAY-OUT post:%s ?\")\n", pp.Name())
+			continue
+		}
+		so := c.sorts.SortOf(c.instType(pp.Type()))
+		fmt.Fprintf(&body, "\tfmt.Println(\"VERIF-REPLAY-OUT post:%s (mk_%s false \" + %s + \")\")\n", pp.Name(), so, p)
+	}
+	fmt.Fprintf(&b, "package %s\n\nimport (\n\t\"fmt\"\n\t\"testing\"\n", src.Pkg.Types.Name())
+	var ips []string
+	for p := range g.imports {
+		ips = append(ips, p)
+	}
+	sort.Strings(ips)
+	for _, p := range ips {
+		fmt.Fprintf(&b, "\t%s %q\n", g.imports[p], p)
+	}
+	b.WriteString(")\n\nfunc vpSigned(x int64) string {\n\tif x < 0 {\n\t\tif x == -9223372036854775808 {\n\t\t\treturn \"(- 9223372036854775808)\"\n\t\t}\n\t\treturn fmt.Sprintf(\"(- %d)\", -x)\n\t}\n\treturn fmt.Sprint(x)\n}\n\n")
+	b.WriteString("func vpErr(e error) string {\n\tif e == nil {\n\t\treturn \"err_nil\"\n\t}\n\treturn \"vp_some_err\"\n}\n\n")
+	b.WriteString("func TestVerifReplay(t *testing.T) {\n\tdefer func() {\n\t\tif r := recover(); r != nil {\n\t\t\tfmt.Printf(\"VERIF-REPLAY-PANIC %v\\n\", r)\n\t\t}\n\t}()\n")
+	b.WriteString(body.String())
+	b.WriteString("\tfmt.Println(\"VERIF-REPLAY-DONE\")\n}\n")
+
+	pkgDir := filepath.Dir(w.Fset.Position(src.Decl.Pos()).Filename)
+	testFile := filepath.Join(workDir, sanitizeFile(rep.Name)+"_replay_test.go")
+	if err := os.WriteFile(testFile, []byte(b.String()), 0o644); err != nil {
+		return "REPLAY-UNAVAILABLE", err.Error()
+	}
+	// overlay = cgo overlay + the injected test
+	var base struct{ Replace map[string]string }
+	ob, _ := os.ReadFile(w.Overlay)
+	json.Unmarshal(ob, &base)
+	if base.Replace == nil {
+		base.Replace = map[string]string{}
+	}
+	base.Replace[filepath.Join(pkgDir, "zz_verif_replay_test.go")] = testFile
+	ovb, _ := json.Marshal(base)
+	ovFile := filepath.Join(workDir, sanitizeFile(rep.Name)+"_ov.json")
+	os.WriteFile(ovFile, ovb, 0o644)
+	ctx, cancel := context.WithTimeout(context.Background(), 240*time.Second)
+	defer cancel()
+	cmd := exec.CommandContext(ctx, "go", "test", "-tags", "verif", "-overlay", ovFile, "-vet=off", "-v", "-count=1", "-timeout", "60s", "-run", "^TestVerifReplay$", ".")
+	cmd.Dir = pkgDir
+	var out bytes.Buffer
+	cmd.Stdout = &out
+	cmd.Stderr = &out
+	cmd.Run()
+	txt := out.String()
+	detail := map[string]any{"inputs": inSMT, "test_source": b.String()}
+	if !strings.Contains(txt, "VERIF-REPLAY-CALL") {
+		detail["go_test_output"] = truncateStr(txt, 3000)
+		db, _ := json.Marshal(detail)
+		return "REPLAY-UNAVAILABLE", "replay test did not run: " + string(db)
+	}
+	outs := map[string]string{}
+	panicked := ""
+	for _, ln := range strings.Split(txt, "\n") {
+		if strings.HasPrefix(ln, "VERIF-REPLAY-OUT ") {
+			rest := strings.TrimPrefix(ln, "VERIF-REPLAY-OUT ")
+			k := strings.Index(rest, " ")
+			outs[rest[:k]] = rest[k+1:]
+		}
+		if strings.HasPrefix(ln, "VERIF-REPLAY-PANIC ") {
+			panicked = strings.TrimPrefix(ln, "VERIF-REPLAY-PANIC ")
+		}
+	}
+	detail["outputs"] = outs
+	if panicked != "" {
+		detail["panic"] = panicked
+		db, _ := json.Marshal(detail)
+		return "REPLAY-CONFIRMED", "the real function panics on the model input: " + string(db)
+	}
+	if o.Kind == "panic" || o.Kind == "call" {
+		db, _ := json.Marshal(detail)
+		return "REPLAY-NOT-CONFIRMED", "the real function did not panic on the model input: " + string(db)
+	}
+	if o.Kind != "ensures" || o.Clause == nil {
+		db, _ := json.Marshal(detail)
+		return "REPLAY-UNAVAILABLE", "obligation kind " + o.Kind + " is not evaluated on concrete outputs: " + string(db)
+	}
+	_ = printable
+	// evaluate the failed clause on the concrete inputs/outputs
+	verdict, why := evalClauseConcrete(w, c, o, inSMT, outs, workDir, rep.Name)
+	detail["clause_eval"] = why
+	db, _ := json.Marshal(detail)
+	return verdict, string(db)
+}
+
+// evalClauseConcrete re-evaluates the contract clause with parameters bound to the model's values
+// and results bound to what the real function returned.
+func evalClauseConcrete(w *World, c *Ctx, o *Obligation, inSMT, outs map[string]string, workDir, name string) (verdict, why string) {
+	defer func() {
+		if r := recover(); r != nil {
+			verdict, why = "REPLAY-UNAVAILABLE", fmt.Sprint("clause evaluation failed: ", r)
+		}
+	}()
+	src := c.fnSrc
+	sig := src.Obj.Type().(*types.Signature)
+	nc := newCtx(w, c.specs, "replay")
+	nc.sorts = c.sorts
+	f := &Frame{c: nc, fn: src, info: src.Pkg.TypesInfo, top: true, tsubst: c.tsubst}
+	typeArgs := map[string]types.Type{}
+	for tp, t := range c.tsubst {
+		typeArgs[tp.Obj().Name()] = t
+	}
+	entry := &SpecEnv{names: map[string]Val{}, pkg: src.Pkg.Types, typeArgs: typeArgs}
+	for _, in := range c.inputs {
+		entry.names[in.Name] = Val{T: inSMT[in.Name], Ty: in.Type}
+	}
+	post := &SpecEnv{names: map[string]Val{}, old: entry, pkg: entry.pkg, typeArgs: typeArgs}
+	for k, v := range entry.names {
+		post.names[k] = v
+	}
+	for i := 0; i < sig.Results().Len(); i++ {
+		v, ok := outs[fmt.Sprintf("r%d", i)]
+		if !ok || v == "?" {
+			// unknown output: a fresh constant (makes the verdict inconclusive if the clause depends on it)
+			rt := c.instType(sig.Results().At(i).Type())
+			v = nc.fresh("unk", nc.sorts.SortOf(rt))
+		}
+		if v == "vp_some_err" {
+			v = nc.fresh("someerr", "Err")
+			nc.axioms = append(nc.axioms, fmt.Sprintf("(not (= %s err_nil))", v))
+		}
+		rt := c.instType(sig.Results().At(i).Type())
+		post.names[fmt.Sprintf("r%d", i)] = Val{T: v, Ty: rt}
+		if n := sig.Results().At(i).Name(); n != "" && n != "_" {
+			post.names[n] = Val{T: v, Ty: rt}
+		}
+	}
+	for k, v := range outs {
+		if strings.HasPrefix(k, "post:") && v != "?" {
+			nm := strings.TrimPrefix(k, "post:")
+			if old, ok := entry.names[nm]; ok {
+				post.names[nm] = Val{T: v, Ty: old.Ty}
+			}
+		}
+	}
+	st := &State{env: map[types.Object]Val{}, gh: map[string]Val{}}
+	for _, l := range c.contract.Lets {
+		post.names[l.Name] = f.specEvalIn(st, l.Expr, post)
+	}
+	g := f.specBool(st, o.Clause.Expr, post)
+	q := &Obligation{Name: name + "-concrete", PC: st.pc, Goal: g, Ctx: nc}
+	neg, _ := discharge(buildQuery(q, true, false), workDir, q.Name+"-neg", 10, false)
+	pos, _ := discharge(buildQuery(q, false, false), workDir, q.Name+"-pos", 10, false)
+	switch {
+	case neg.Result == "sat" && pos.Result == "unsat":
+		return "REPLAY-CONFIRMED", "clause is false on the real function's outputs: " + o.Clause.Src
+	case neg.Result == "unsat":
+		return "REPLAY-NOT-CONFIRMED", "clause holds on the real function's outputs (spurious model: an abstraction artefact)"
+	}
+	return "REPLAY-UNAVAILABLE", fmt.Sprintf("clause evaluation inconclusive (not-clause: %s, clause: %s)", neg.Result, pos.Result)
 }
